@@ -40,8 +40,13 @@ def _assigns(fn, target):
     return out
 
 
+_CLASS = [None]   # the RadialNumericalBH class node: constants that moved to a helper method are still found
+
+
 def _one(fn, target):
     vals = _assigns(fn, target)
+    if not vals and _CLASS[0] is not None:
+        vals = _assigns(_CLASS[0], target)
     if len(vals) != 1:
         raise Unsupported(FILE, fn, f"expected exactly one assignment to {target} in {fn.name}, found {len(vals)}")
     return vals[0]
@@ -78,6 +83,7 @@ def _horizon(fn):
 
 def main(write, HEADER, parse, PKG):
     tree = parse(FILE)
+    _CLASS[0] = find_function(tree, "RadialNumericalBH")
     init = find_function(tree, "RadialNumericalBH.__init__")
     pinit = find_function(tree, "RadialNumericalBH.partial_init")
     fill = find_function(tree, "RadialNumericalBH.fill_radial_cells")
